@@ -9,7 +9,7 @@
           scanning goroutine: their outputs are schedule independent),
           2 = property oracle fails on the observation, 0 = case does not parse. *)
 From Coq Require Import ZArith List Bool Arith.
-From Verif Require Import Base.Wire Pipeline.Model Pipeline.Exec.
+From Verif Require Import Base.Wire Pipeline.Model Pipeline.Exec Pipeline.Source.
 Import ListNotations.
 Open Scope Z_scope.
 Open Scope wire_scope.
@@ -120,7 +120,7 @@ Definition check_pbf : P (list Z) :=
   mode <- pint ;; filter <- pint ;; calls <- plist ptriple ;;
   rac <- pint ;; hdrlate <- pint ;; leaked <- pint ;;
   let inp := mk_input filter 0 its in
-  let c := mkCfg n inp resume 0 true true true in
+  let c := cfg_of_source n inp resume 0 in
   let fuel := (4 * length its + 4 * n + 60)%nat in
   let j1 :=
     if mode =? 0 then
